@@ -3,6 +3,7 @@ import random
 
 from pyvc.source import Source
 from pyvc.engine import Engine
+from pyvc import anycoll   # noqa: F401  (installs the witness rule for loops over unbounded collections; must precede Engine())
 from spec import fields as F
 
 _ctx = {}
